@@ -106,13 +106,20 @@ class SymTeam:
         if sigma_pos:
             ctx.assume(self.s.t > 0)
         self.root = self
+        if not hasattr(ctx, "sym_teams") or getattr(ctx, "sym_teams_path", None) is not ctx.pc:
+            ctx.sym_teams, ctx.sym_teams_path = [], ctx.pc
+        ctx.sym_teams.append(self)
 
     # -- a second / third arbitrary member: the same terms with fresh Skolem symbols
     def other_member(self, ctx, suffix):
         mu2, sg2 = z3.Real(f"{self.tag}mu_{self.index}_{suffix}"), z3.Real(f"{self.tag}sg_{self.index}_{suffix}")
+        k2 = z3.Int(f"{self.tag}k_{self.index}_{suffix}")
         ctx.assume(sg2 > 0)
         ctx.assume(self.s.t >= sg2 * sg2)
-        return [(self.sym["mu"], mu2), (self.sym["sigma"], sg2)]
+        ctx.assume(z3.And(k2 >= 0, k2 < self.L))
+        # the member's index as well: a result term that distinguishes members by position (merged
+        # paths: If(k < 4, .., ..)) must do so for the second member with *its* position
+        return [(self.sym["mu"], mu2), (self.sym["sigma"], sg2), (self.k, k2)]
 
     def member_names(self):
         return {str(v) for v in self.sym.values()}
@@ -266,6 +273,26 @@ class TeamEnum:
         raise UncutLoop("iteration over enumerate(team) outside the map/fold rule")
 
 
+class TeamRange:
+    """range(len(team)): the indices 0 .. L-1 of a team of symbolic size"""
+
+    def __init__(self, team):
+        self.team = team
+        self.root = team.root
+
+    def item(self):
+        return SymNum(z3.ToReal(self.team.k), KINT)
+
+    def teams(self):
+        return [self.team]
+
+    def length(self):
+        return self.team.L
+
+    def __iter__(self):
+        raise UncutLoop("iteration over range(len(team)) outside the map/fold rule")
+
+
 class TeamZip:
     def __init__(self, srcs):
         self.srcs = srcs
@@ -287,7 +314,7 @@ class TeamZip:
         raise UncutLoop("iteration over zip(team, ..) outside the map/fold rule")
 
 
-TEAMLIKE = (SymTeam, TeamView, TeamSeq, TeamEnum, TeamZip)
+TEAMLIKE = (SymTeam, TeamView, TeamSeq, TeamEnum, TeamZip, TeamRange)
 
 
 def is_teamlike(x):
@@ -304,6 +331,21 @@ def t_enumerate(x, start=0):
     if is_teamlike(x):
         return TeamEnum(x, start)
     return enumerate(x, start)
+
+
+def t_range(*a):
+    """range(len(team)) -> the indices of that team; any other range with a symbolic bound is outside the rule"""
+    if any(isinstance(x, SymNum) for x in a):
+        if len(a) == 1:
+            t = z3.simplify(a[0].t)
+            for team in getattr(cur(), "sym_teams", ()):
+                if z3.eq(t, z3.simplify(z3.ToReal(team.L))):
+                    return TeamRange(team)
+        try:
+            return range(*[x.__index__() if isinstance(x, SymNum) else x for x in a])
+        except UncutLoop:
+            raise UncutLoop("range() with a symbolic bound that is not the size of one team")
+    return range(*a)
 
 
 def t_zip(*xs, **kw):
@@ -475,6 +517,12 @@ class Fold:
         self.snap = _snapshot(watch)
         c.fold_depth = getattr(c, "fold_depth", 0) + 1
         self.forked_outside, c.fold_forked = getattr(c, "fold_forked", None), None
+        self.names_outside = set(getattr(c, "fold_member_names", ()) or ())
+        mine = set()
+        for t in self.teams:
+            mine |= t.member_names() | {str(t.k)}
+        mine |= {str(h.t) for h in self.havoc.values()}
+        c.fold_member_names = self.names_outside | mine
         return tuple(vals) if len(vals) != 1 else (vals[0],)
 
     def item(self):
@@ -483,6 +531,7 @@ class Fold:
     def end(self, loc):
         c = self.ctx
         c.fold_depth -= 1
+        c.fold_member_names = self.names_outside
         forked = c.fold_forked
         c.fold_forked = self.forked_outside or forked
         if forked:
@@ -681,7 +730,7 @@ class FoldLoops(ast.NodeTransformer):
 
 
 REBINDS = {
-    "enumerate": t_enumerate, "zip": t_zip, "map": t_map, "filter": t_filter, "reduce": t_reduce, "sum": t_sum,
+    "enumerate": t_enumerate, "range": t_range, "zip": t_zip, "map": t_map, "filter": t_filter, "reduce": t_reduce, "sum": t_sum,
     "list": t_list, "len": t_len, "isinstance": t_isinstance,
     "__pyvc_comp__": _comp, "__pyvc_isteam__": _isteam, "__pyvc_fold__": _fold_factory, "__pyvc_uncut__": _uncut,
 }
